@@ -150,7 +150,8 @@ func (task *genericTask) Type() ActivityType {
 }
 
 func (task *genericTask) Cancel() <-chan bool {
-	response := make(chan bool)
+	// buffered: the requester may have stopped waiting (the instance was cancelled)
+	response := make(chan bool, 1)
 	task.mch <- cancelMessage{response: response}
 	return response
 }
